@@ -69,6 +69,7 @@ fn render_cram(d: &Doc, di: usize, marks: &Path) -> String {
             'Q' => s.push_str(&format!("  $ {}; exit {}\n", mark, 80)),
             'G' => s.push_str(&format!("  $ {}; {}\n", mark, slow_cmd('G', &id, marks))),
             'K' => s.push_str(&format!("  $ {}; kill -9 $$\n", mark)),
+            'X' => s.push_str(&format!("  $ {}; exit 3\n", mark)),   // ends the whole script early, with a code that is not the skip code
             _ => unreachable!(),
         }
         s.push('\n');
@@ -101,6 +102,7 @@ pub fn gen_run(r: &mut Rng) -> (Vec<Doc>, Option<u64>) {
                 7 => if slow_budget && !slow_used { slow_used = true; if cram || r.chance(1, 2) { t.kind = 'G'; if cram { cli_timeout = Some(1); } else { d.total_ms = Some(800); } } else { t.kind = 'T'; } },
                 8 => if !cram { t.kind = 'D' },
                 9 => if r.chance(1, 3) { t.kind = 'K' },
+                10 => if cram && r.chance(1, 2) { t.kind = 'X' },
                 _ => t.kind = 'P',
             }
             // a wrong or expected code that happens to be the effective skip code is a skip: keep it, the model decides
@@ -115,6 +117,16 @@ pub fn gen_run(r: &mut Rng) -> (Vec<Doc>, Option<u64>) {
         tests.push(T { kind: 'T', code: 0, inline_skip: None });
         for _ in 0..r.range(0, 2) { tests.push(T { kind: *r.pick(&['P', 'O', 'D']), code: 0, inline_skip: None }); }
         docs.push(Doc { cram: false, role: 'm', docskip: None, total_ms: None, tests, fileno: 0 });
+    }
+    // Cram: a test that ends in the skip code without leaving the script, and a later one that leaves it early
+    if r.chance(1, 12) {
+        let mut tests = vec![];
+        if r.chance(1, 2) { tests.push(T { kind: *r.pick(&['P', 'O', 'E']), code: 1, inline_skip: None }); }
+        tests.push(T { kind: 'S', code: 0, inline_skip: None });
+        if r.chance(1, 2) { tests.push(T { kind: 'P', code: 0, inline_skip: None }); }
+        tests.push(T { kind: *r.pick(&['X', 'X', 'Q', 'K']), code: 0, inline_skip: None });
+        if r.chance(1, 2) { tests.push(T { kind: 'P', code: 0, inline_skip: None }); }
+        docs.push(Doc { cram: true, role: 'm', docskip: None, total_ms: None, tests, fileno: 0 });
     }
     let any_cram = docs.iter().any(|d| d.cram);
     for role in ['p', 'a'] {
